@@ -24,11 +24,12 @@ def extract(ctx):
     else:
         facts["go"] = (m.group(1), m.group(2).strip(), GO)
     sol = vlib.read(os.path.join(vlib.REPO, SOL))
-    m = re.search(r"function\s+quorum\s*\(\s*uint(?:256)?\s+(\w+)\s*\)[^{]*\{\s*return\s+([^;]+);\s*\}", sol)
+    m = re.search(r"function\s+quorum\s*\(\s*uint(\d*)\s+(\w+)\s*\)[^{]*\{\s*return\s+([^;]+);\s*\}", sol)
     if not m:
         ctx.gen_fail("C07", "quorum() is no longer a single return expression in " + SOL)
     else:
-        facts["sol"] = (m.group(1), m.group(2).strip(), SOL)
+        facts["sol"] = (m.group(2), m.group(3).strip(), SOL)
+        facts["_solWidth"] = int(m.group(1) or 256)
     ral = vlib.read(os.path.join(vlib.REPO, RAL))
     m = re.search(r"let\s+quorumSize\s*=\s*([^\n]+)\n\s*assert!\(\s*quorumSize\s*<=\s*signatureSize\s*,", ral)
     if not m:
@@ -42,9 +43,11 @@ def extract(ctx):
         if not re.search(r"let\s+signatureSize\s*=\s*u256From1Byte!\(byteVecSlice!\(data,\s*5,\s*6\)\)", ral):
             ctx.gen_fail("C07", "signatureSize is no longer byte 5 of the VAA in " + RAL)
     # Solidity: the comparison that uses quorum()
-    sol_use = re.search(r"vm\.signatures\.length\s*<\s*quorum\(\s*guardianSet\.keys\.length\s*\)", sol)
+    sol_use = re.search(r"vm\.signatures\.length\s*<\s*quorum\(\s*(?:uint(\d*)\()?guardianSet\.keys\.length\s*\)?\)", sol)
     if not sol_use:
         ctx.gen_fail("C07", "`vm.signatures.length < quorum(guardianSet.keys.length)` rejection not found in " + SOL)
+    elif sol_use.group(1) is not None:
+        facts["_solWidth"] = min(facts.get("_solWidth", 256), int(sol_use.group(1) or 256))
     # shape of the two contract-side signature loops (textual facts; the loops themselves are hand-modelled in
     # Whv/Model/Contract.lean): strictly ascending indices and positional ecrecover comparison
     facts["_solLoop"] = bool(re.search(r"require\(i == 0 \|\| sig\.guardianIndex > lastIndex,", sol)) and \
@@ -61,6 +64,7 @@ def gen(ctx):
     facts = extract(ctx)
     defs = []
     lean_terms = {}
+    sol_width = facts.pop("_solWidth", 256)
     sol_loop = facts.pop("_solLoop", False)
     ral_loop = facts.pop("_ralLoop", False)
     for k, lname in (("go", "goQuorum"), ("sol", "solQuorum"), ("ral", "ralQuorum")):
@@ -79,15 +83,20 @@ def gen(ctx):
         b = lambda x: "true" if x else "false"
         defs.append("/-- Messages.sol verifySignatures/verifyVM: non-empty set, `i == 0 || index > lastIndex`, positional ecrecover comparison (textual) -/\n"
                     "def solLoopShape : Bool := %s\n" % b(sol_loop))
+        defs.append("/-- bit width of the Solidity quorum() parameter / call-site cast: under ^0.8 checked arithmetic an intermediate value "
+                    "beyond it reverts, so anything narrower than the one-byte guardian count times two is a different function -/\n"
+                    "def solQuorumWidth : Nat := %d\n" % sol_width)
         defs.append("/-- governance.ral parseAndVerifyVAA: non-empty set, index > lastGuardianIndex from -1, key == ethEcRecover (textual) -/\n"
                     "def ralLoopShape : Bool := %s\n" % b(ral_loop))
         ctx.gen("C07", "namespace Whv.Gen.C07\n\n" + "\n".join(defs) + "\nend Whv.Gen.C07\n")
-    ctx.cov["gen_facts"] = {k: {"source": v[2], "expr": v[1]} for k, v in facts.items()}
+    ctx.cov["gen_facts"] = {k: {"source": v[2], "expr": v[1]} for k, v in facts.items() if not k.startswith("_")}
+    facts["_solWidthKept"] = sol_width
     return facts, nq == 3
 
 
 def run(ctx):
     facts, ok = gen(ctx)
+    sol_width = facts.pop("_solWidthKept", 256)
     if ok:
         ctx.prove()
 
@@ -109,9 +118,16 @@ def run(ctx):
     for n in sorted(table):
         want = 2 * n // 3 + 1
         got = {"goimpl": table[n]}
-        for k, (var, expr, src) in facts.items():
+        for k, v3 in facts.items():
+            if k.startswith("_"):
+                continue
+            var, expr, src = v3
             try:
                 got[k] = exprtrans.evaluate(expr, {var: n})
+                if k == "sol" and sol_width < 256:
+                    # Solidity ^0.8 checked arithmetic at the declared width: n itself and n*2 must fit, else the call reverts
+                    if n >= 2 ** sol_width or n * 2 >= 2 ** sol_width:
+                        got[k] = "revert"
             except Exception as e:  # noqa
                 got[k] = None
         evals += 1
@@ -129,7 +145,7 @@ def run(ctx):
                     "key": "quorum-mismatch:" + ",".join(sorted(bad) or ["bft"]),
                     "what": "n=%d: %s, floor(2n/3)+1=%d" % (n, got, want),
                     "replay": {"n": n, "values": got, "expected": want,
-                               "sources": {k: v[2] for k, v in facts.items()}}})
+                               "sources": {k: v[2] for k, v in facts.items() if not k.startswith("_")}, "solQuorumWidth": sol_width}})
     ctx.cov["evaluations"] = evals
     ctx.cov["distinct_nontrivial"] = len(table)
     ctx.cov["exhaustive"] = True
